@@ -1580,6 +1580,91 @@ fn finalize_with_late_values(cx: &mut Cx, dir: &std::path::Path)
 	}
 }
 
+/// SHADOWING (`shadow <seed>`): a file's OWN label / constant has the same name as a constant of the enclosing scope — a global the
+/// embedding program defined through `Context::insert_constant(.., Realm::Global)` before assembling, or a label / constant of the
+/// including file. Nothing is imported: every reference in the file, before and after the definition, in the same and in another
+/// region, means the file's own definition.
+fn check_shadow(cx: &mut Cx, seed: u64, dir: &std::path::Path)
+{
+	use trion::asm::constant::Realm;
+	let mut rng = Rng::new(seed);
+	let input = format!("shadow {seed}");
+	let name = *rng.pick(&["loop", "start", "end", "done", "size", "k9", "_x", "a.b"]);
+	let outer_value = 0x1000_0000i64 + rng.below(0x1000) as i64 * 4;
+	let own_is_label = rng.chance(1, 2);
+	let own_const = 0x4000_0000i64 + rng.below(0xFFFF) as i64;
+	let (r1, r2) = (0x2000_0000u32 + rng.below(64) as u32 * 4, 0x2000_0400u32 + rng.below(64) as u32 * 4);
+	let how = rng.below(4);   // 0: pre-seeded global, 1: includer's constant, 2: includer's label, 3: pre-seeded global AND includer's constant
+	let k = rng.below(9) as i64;
+	// the file under test: references before the definition (one in a first region), the definition, references after it
+	let before = rng.below(3) as usize + 1;
+	let mut body = String::new();
+	let mut expect_words: Vec<(u32, Option<u32>)> = Vec::new();   // (address, None = the own value)
+	let mut addr = r2;
+	let own_in_first = rng.chance(1, 3);
+	for _ in 0..before {body.push_str(&format!(".du32 {name} + {k};\n")); expect_words.push((addr, None)); addr += 4;}
+	body.push_str(".du32 0xCAFEF00D;\n"); expect_words.push((addr, Some(0xCAFE_F00D))); addr += 4;
+	let own_value: i64 = if own_is_label {body.push_str(&format!("{name}:\n")); addr as i64} else {body.push_str(&format!(".const {name}, {own_const};\n")); own_const};
+	body.push_str(&format!(".du32 {name} + {k};\nNOP;\n")); expect_words.push((addr, None)); addr += 6;
+	// a further region with one more reference
+	let r3 = r2 + 0x400;
+	body.push_str(&format!(".align 2;\n.addr 0x{r3:X};\n.du32 {name} + {k};\n")); expect_words.push((r3, None));
+	let _ = (addr, own_in_first);
+	let want_own = (own_value + k) as u32;
+	let (files, seeded): (Vec<(String, Vec<u8>)>, bool) = match how
+	{
+		0 => (vec![("main.asm".to_owned(), format!(".addr 0x{r1:X};\nNOP;\n.addr 0x{r2:X};\n{body}").into_bytes())], true),
+		1 | 3 => (vec![("main.asm".to_owned(), format!(".addr 0x{r1:X};\n.const {name}, {outer_value};\nNOP;\n.du32 {name};\n.addr 0x{r2:X};\n.include \"child.asm\";\n").into_bytes()),
+			("child.asm".to_owned(), body.clone().into_bytes())], how == 3),
+		_ => (vec![("main.asm".to_owned(), format!(".addr 0x{r1:X};\n{name}:\nNOP;\n.addr 0x{r2:X};\n.include \"child.asm\";\n").into_bytes()),
+			("child.asm".to_owned(), body.clone().into_bytes())], false),
+	};
+	let p = Project{files};
+	p.write(dir);
+	let path = dir.join("main.asm");
+	let data = std::fs::read(&path).unwrap();
+	let r = guarded(||
+	{
+		let directives = DirectiveList::generate();
+		let mut ctx = Context::new(&Arm6M, &directives);
+		if seeded {ctx.insert_constant(name, outer_value + 0x100, Realm::Global).unwrap();}
+		let (res, _) = ctx.assemble(&data, path.clone());
+		let closed = ctx.close_segment().is_ok();
+		let fin = ctx.finalize();
+		let errs: Vec<String> = ctx.get_errors().iter().map(|e| format!("{}:{}:{}", e.line, e.col, crate::errkind::diag_kind(&e.value))).collect();
+		let mut image = BTreeMap::new();
+		for (range, seg) in ctx.output().iter() {for (i, b) in seg.iter().enumerate() {image.insert(range.get_first().wrapping_add(i as u32), *b);}}
+		(res.is_ok() && closed && fin && errs.is_empty(), errs, image)
+	});
+	let shape = format!("{} shadowed by {}", if own_is_label {"own label"} else {"own constant"}, ["a pre-seeded global", "the includer's constant", "the includer's label", "a pre-seeded global and the includer's constant"][how as usize]);
+	cx.report.case(Some(&format!("{shape} {want_own:08x}")));
+	cx.report.hit(&format!("shadowing: {shape}"));
+	match r
+	{
+		Err(e) => cx.report.oracle_fail(input, format!("panic: {e}")),
+		Ok((ok, errs, image)) =>
+		{
+			if !ok {cx.report.oracle_fail(input.clone(), format!("{shape}: a valid program is refused: {errs:?}; files {:?}", p.files.iter().map(|(n, d)| (n.clone(), String::from_utf8_lossy(d).into_owned())).collect::<Vec<_>>()));}
+			else
+			{
+				for (a, w) in &expect_words
+				{
+					let got: Vec<u8> = (0..4).filter_map(|i| image.get(&(a + i)).copied()).collect();
+					let want = w.unwrap_or(want_own).to_le_bytes().to_vec();
+					if got != want
+					{
+						cx.report.oracle_fail(input.clone(), format!("{shape}: the word at {a:08X} must be {} ({} + {k} of the file's own `{name}`), the image holds {}; files {:?}", hex(&want), own_value, hex(&got),
+							p.files.iter().map(|(n, d)| (n.clone(), String::from_utf8_lossy(d).into_owned())).collect::<Vec<_>>()));
+						break;
+					}
+				}
+			}
+		},
+	}
+	// without a pre-seeded global the whole-pipeline model can express the project
+	if !seeded {p.write(dir); check_asm_model(cx, &p, dir);}
+}
+
 /// `.include` applied through `DirectiveList::process` on a fresh `Context` (no current file: the path is taken as it is
 /// when absolute): must behave as the same include written in a main file — same image, same success
 fn include_without_current_file(cx: &mut Cx, dir: &std::path::Path)
@@ -1776,6 +1861,11 @@ pub fn run(id: &str, cx: &mut Cx)
 			self_include(cx, &dir, rest.trim().parse().unwrap_or(1));
 			return;
 		}
+		if let Some(seed) = input.strip_prefix("shadow ").and_then(|x| x.trim().parse::<u64>().ok())
+		{
+			check_shadow(cx, seed, &dir);
+			return;
+		}
 		if input.starts_with("include-direct")
 		{
 			include_without_current_file(cx, &dir);
@@ -1837,6 +1927,7 @@ pub fn run(id: &str, cx: &mut Cx)
 labels, constants, .du8/16/32 with expressions over forward and backward symbols, .dstr/.dhex/.dfile, .align, literal and PC-relative instructions, \
 .include with .global/.import) rendered with random spacing/comments; oracle = two-pass reference layout computed from the AST (also for the damaged variants the implementation accepts); \
 non-trivial = non-empty image; distinct = distinct images".to_owned();
+			for _ in 0..if cx.thorough() {4000} else {400} {let seed = cx.rng.next(); check_shadow(cx, seed, &dir);}
 			let n = if cx.thorough() {100_000} else {12_000};
 			let mut made = 0;
 			let mut tries = 0;
